@@ -576,7 +576,21 @@ pub fn run_parse(args: &Args) {
             Some(b) => b,
             None => continue,
         };
-        let bb = BoardBuilder::from_board(&b);
+        let mut bb = BoardBuilder::from_board(&b);
+        // sometimes put an enemy rook on a back rank whose king is at home (rights that name it must be refused)
+        if rng.chance(1, 3) {
+            let c = rnd_color(&mut rng);
+            let br = Rank::First.relative_to(c);
+            let home = Square::ALL.iter().any(|&s| s.rank() == br && bb.square(s) == Some((Piece::King, c)));
+            let free: Vec<Square> = Square::ALL.iter().copied().filter(|&s| s.rank() == br && bb.square(s).is_none()).collect();
+            if home && !free.is_empty() {
+                let mut t = bb.clone();
+                *t.square_mut(*rng.pick(&free)) = Some((Piece::Rook, !c));
+                if let Some(Ok(_)) = guard(|| t.build()) {
+                    bb = t;
+                }
+            }
+        }
         let ah = Color::ALL.iter().all(|&c| {
             let r = bb.castle_rights(c);
             r.short.map_or(true, |f| f == File::H) && r.long.map_or(true, |f| f == File::A)
@@ -607,6 +621,12 @@ pub fn run_parse(args: &Args) {
                     let br = Rank::First.relative_to(c);
                     let up = |f: File| { let ch = FCH[f as usize]; if c == Color::White { ch.to_ascii_uppercase() } else { ch } };
                     let rooks: Vec<File> = File::ALL.iter().copied().filter(|&f| bb.square(Square::new(f, br)) == Some((Piece::Rook, c))).collect();
+                    // rooks of the other colour standing on this back rank: a right naming them is unsupported
+                    for &f in &File::ALL {
+                        if bb.square(Square::new(f, br)) == Some((Piece::Rook, !c)) {
+                            cands.push(up(f).to_string());
+                        }
+                    }
                     for &f in &rooks {
                         cands.push(up(f).to_string());
                         for &g in &rooks {
